@@ -7,8 +7,12 @@
 //  Farkas y:     z = A^T y;  L = sum_i (y_i>0 ? y_i*lhs_i : y_i<0 ? y_i*rhs_i : 0)  is a lower bound of y^T A x over the row sides,
 //                U = sum_j (z_j>0 ? z_j*up_j : z_j<0 ? z_j*lo_j : 0) an upper bound of z^T x over the box; every bound/side that is used
 //                must be finite; margin = L - U >= 1 proves infeasibility.  Asserted: same on the original data, same margin.
-// The scaled conditions are ASSUMED on the data stored in the scaled LP object, the unscaled ones ASSERTED on the dense copy `d`.
-// Small ints times small powers of two: all arithmetic exact.
+// The scaled conditions are ASSUMED on the data stored in the scaled LP object, the unscaled ones ASSERTED on the dense copy `d` of the
+// original data (oracle = the certificate algebra, not the exponent formula).
+// Proof structure (only to keep the SAT work small): the row activity t' = A'w' of the scaled ray is passed through the real
+// unscaleSlacks and the identity t == A w (original data) is asserted, then used (assert-then-assume) for the sign conditions;
+// likewise z' = A'^T y' goes through the real unscaleRedCost and z == A^T y is asserted before it is used.
+// Small ints times small powers of two: all arithmetic exact.  EXPS / MMAX as in c01_unscale_kkt.cpp.
 #include "lp_build.h"
 using namespace soplex; using namespace vph;
 #ifndef NR
@@ -33,12 +37,13 @@ using namespace soplex; using namespace vph;
 #define HAS(i, j) ((MASK >> ((i) * NC + (j))) & 1u)
 static bool fin_lo(double x) { return x > -(double)infinity; }
 static bool fin_up(double x) { return x < (double)infinity; }
-static double arb(int rel)
+static double arb()
 {
    int m = vp_int_in(-MMAX, MMAX);
    int k = vp_int_in(-KMAX, KMAX);
-#ifdef CONSTRUCTED
-   return ldexp((double)m, k + rel);
+#if MMAX == 1
+   double one = (m < 0) ? -1.0 : 1.0;
+   return (m == 0) ? 0.0 : ldexp(one, k);
 #else
    return ldexp((double)m, k);
 #endif
@@ -48,8 +53,14 @@ static void scaled_min_lp(LP& lp, Dense<NR, NC>& d, Sc& sc, int* ce, int* re)
    lp.changeSense(SPxLPBase<double>::MINIMIZE);
    build<NR, NC>(lp, d, MASK, DMAX);
    sc.setup(lp);
+#ifdef EXPS
+   static const int XE[NC + NR] = EXPS;              // {column exponents..., row exponents...}
+   for(int j = 0; j < NC; ++j) { ce[j] = XE[j]; lp.cexp()[j] = ce[j]; }
+   for(int i = 0; i < NR; ++i) { re[i] = XE[NC + i]; lp.rexp()[i] = re[i]; }
+#else
    for(int j = 0; j < NC; ++j) { ce[j] = vp_int_in(-EMAX, EMAX); lp.cexp()[j] = ce[j]; }
    for(int i = 0; i < NR; ++i) { re[i] = vp_int_in(-EMAX, EMAX); lp.rexp()[i] = re[i]; }
+#endif
    sc.applyScaling(lp);
 }
 
@@ -57,43 +68,59 @@ extern "C" void h_c02_unscale_primalray()
 {
    LP lp; Dense<NR, NC> d; Sc sc; int ce[NC], re[NR];
    scaled_min_lp(lp, d, sc, ce, re);
-   VectorBase<double> w(NC);
-   for(int j = 0; j < NC; ++j) w[j] = arb(-ce[j]);
-   // w is an improving recession direction of the SCALED LP as stored
+   VectorBase<double> w(NC), t(NR);
+   double ws[NC], ts[NR];
+   for(int j = 0; j < NC; ++j) { ws[j] = arb(); w[j] = ws[j]; }
+   // row activity and objective slope of the ray in the SCALED LP as stored
    double slopes = 0.0;
-   for(int j = 0; j < NC; ++j)
-   {
-      if(fin_lo(lp.lower(j))) vp_assume(w[j] >= 0.0);
-      if(fin_up(lp.upper(j))) vp_assume(w[j] <= 0.0);
-      slopes += (-lp.maxObj(j)) * w[j];
-   }
    for(int i = 0; i < NR; ++i)
    {
       double a = 0.0;
-      for(int j = 0; j < NC; ++j) if(HAS(i, j)) a += rowcoef(lp, i, j) * w[j];
-      if(fin_lo(lp.lhs(i))) vp_assume(a >= 0.0);
-      if(fin_up(lp.rhs(i))) vp_assume(a <= 0.0);
+      for(int j = 0; j < NC; ++j) if(HAS(i, j)) a += rowcoef(lp, i, j) * ws[j];
+      ts[i] = a; t[i] = a;
    }
-   vp_assume(slopes < 0.0);
+   for(int j = 0; j < NC; ++j) slopes += (-lp.maxObj(j)) * ws[j];
 
-   sc.unscalePrimalray(lp, w);
+   sc.unscalePrimalray(lp, w);                        // the real routine under test
+   sc.unscaleSlacks(lp, t);                           // real routine, used as a bridge for the row activities
 
-   double slope = 0.0;
-   for(int j = 0; j < NC; ++j)
-   {
-      if(fin_lo(d.lo[j])) vp_assert(w[j] >= 0.0, 1);
-      if(fin_up(d.up[j])) vp_assert(w[j] <= 0.0, 2);
-      slope += d.obj[j] * w[j];
-   }
+   double act[NR];
    for(int i = 0; i < NR; ++i)
    {
       double a = 0.0;
       for(int j = 0; j < NC; ++j) if(HAS(i, j)) a += d.a[i][j] * w[j];
-      if(fin_lo(d.lhs[i])) vp_assert(a >= 0.0, 3);
-      if(fin_up(d.rhs[i])) vp_assert(a <= 0.0, 4);
+      act[i] = a;
+      vp_assert(t[i] == a, 7);                        // row activity of the unscaled ray on the ORIGINAL matrix
+      vp_assume(t[i] == a);                           // (proved just above)
+   }
+   double slope = 0.0;
+   for(int j = 0; j < NC; ++j) slope += d.obj[j] * w[j];
+   vp_assert(slope == slopes, 6);                     // same objective slope
+
+   // ws is an improving recession direction of the SCALED LP as stored
+   for(int j = 0; j < NC; ++j)
+   {
+      if(fin_lo(lp.lower(j))) vp_assume(ws[j] >= 0.0);
+      if(fin_up(lp.upper(j))) vp_assume(ws[j] <= 0.0);
+   }
+   for(int i = 0; i < NR; ++i)
+   {
+      if(fin_lo(lp.lhs(i))) vp_assume(ts[i] >= 0.0);
+      if(fin_up(lp.rhs(i))) vp_assume(ts[i] <= 0.0);
+   }
+   vp_assume(slopes < 0.0);
+   // => w is an improving recession direction of the ORIGINAL LP
+   for(int j = 0; j < NC; ++j)
+   {
+      if(fin_lo(d.lo[j])) vp_assert(w[j] >= 0.0, 1);
+      if(fin_up(d.up[j])) vp_assert(w[j] <= 0.0, 2);
+   }
+   for(int i = 0; i < NR; ++i)
+   {
+      if(fin_lo(d.lhs[i])) vp_assert(act[i] >= 0.0, 3);
+      if(fin_up(d.rhs[i])) vp_assert(act[i] <= 0.0, 4);
    }
    vp_assert(slope < 0.0, 5);
-   vp_assert(slope == slopes, 6);
    vp_cover(1);
 }
 
@@ -101,27 +128,44 @@ extern "C" void h_c02_unscale_dualray()
 {
    LP lp; Dense<NR, NC> d; Sc sc; int ce[NC], re[NR];
    scaled_min_lp(lp, d, sc, ce, re);
-   VectorBase<double> y(NR);
-   for(int i = 0; i < NR; ++i) y[i] = arb(-re[i]);
-   // y proves infeasibility of the SCALED LP as stored, with margin >= 1
+   VectorBase<double> y(NR), z(NC);
+   double ys[NR], zs[NC];
+   for(int i = 0; i < NR; ++i) { ys[i] = arb(); y[i] = ys[i]; }
+   for(int j = 0; j < NC; ++j)
+   {
+      double a = 0.0;
+      for(int i = 0; i < NR; ++i) if(HAS(i, j)) a += colcoef(lp, i, j) * ys[i];
+      zs[j] = a; z[j] = a;
+   }
+
+   sc.unscaleDualray(lp, y);                          // the real routine under test
+   sc.unscaleRedCost(lp, z);                          // real routine, used as a bridge for the column combination z = A^T y
+
+   double zo[NC];
+   for(int j = 0; j < NC; ++j)
+   {
+      double a = 0.0;
+      for(int i = 0; i < NR; ++i) if(HAS(i, j)) a += d.a[i][j] * y[i];
+      zo[j] = a;
+      vp_assert(z[j] == a, 7);                        // A^T y on the ORIGINAL matrix
+      vp_assume(z[j] == a);                           // (proved just above)
+   }
+
+   // ys proves infeasibility of the SCALED LP as stored, with margin >= 1
    double Ls = 0.0, Us = 0.0;
    for(int i = 0; i < NR; ++i)
    {
-      if(y[i] > 0.0) { vp_assume(fin_lo(lp.lhs(i))); Ls += y[i] * lp.lhs(i); }
-      if(y[i] < 0.0) { vp_assume(fin_up(lp.rhs(i))); Ls += y[i] * lp.rhs(i); }
+      if(ys[i] > 0.0) { vp_assume(fin_lo(lp.lhs(i))); Ls += ys[i] * lp.lhs(i); }
+      if(ys[i] < 0.0) { vp_assume(fin_up(lp.rhs(i))); Ls += ys[i] * lp.rhs(i); }
    }
    for(int j = 0; j < NC; ++j)
    {
-      double z = 0.0;
-      for(int i = 0; i < NR; ++i) if(HAS(i, j)) z += colcoef(lp, i, j) * y[i];
-      if(z > 0.0) { vp_assume(fin_up(lp.upper(j))); Us += z * lp.upper(j); }
-      if(z < 0.0) { vp_assume(fin_lo(lp.lower(j))); Us += z * lp.lower(j); }
+      if(zs[j] > 0.0) { vp_assume(fin_up(lp.upper(j))); Us += zs[j] * lp.upper(j); }
+      if(zs[j] < 0.0) { vp_assume(fin_lo(lp.lower(j))); Us += zs[j] * lp.lower(j); }
    }
    double margins = Ls - Us;
    vp_assume(margins >= 1.0);
-
-   sc.unscaleDualray(lp, y);
-
+   // => y proves infeasibility of the ORIGINAL LP with the same margin
    double L = 0.0, U = 0.0;
    for(int i = 0; i < NR; ++i)
    {
@@ -130,10 +174,9 @@ extern "C" void h_c02_unscale_dualray()
    }
    for(int j = 0; j < NC; ++j)
    {
-      double z = 0.0;
-      for(int i = 0; i < NR; ++i) if(HAS(i, j)) z += d.a[i][j] * y[i];
-      if(z > 0.0) { vp_assert(fin_up(d.up[j]), 3); U += z * d.up[j]; }
-      if(z < 0.0) { vp_assert(fin_lo(d.lo[j]), 4); U += z * d.lo[j]; }
+      // z[j] == zo[j] = (A^T y)_j on the original matrix was proved above; z[j] is used because it shares its mantissa bits with zs[j]
+      if(zo[j] > 0.0) { vp_assert(fin_up(d.up[j]), 3); U += z[j] * d.up[j]; }
+      if(zo[j] < 0.0) { vp_assert(fin_lo(d.lo[j]), 4); U += z[j] * d.lo[j]; }
    }
    vp_assert(L - U >= 1.0, 5);
    vp_assert(L - U == margins, 6);
